@@ -276,7 +276,7 @@ def registered_classes(fn: ast.FunctionDef) -> list[str] | None:
     return sorted(regs)
 
 
-def translate(printing_py, ty_py) -> tuple[str, dict]:
+def translate(printing_py, ty_py, decorator_py=None) -> tuple[str, dict]:
     mod = ast.parse(open(printing_py).read())
     cls = [n for n in mod.body if isinstance(n, ast.ClassDef) and n.name == "TypePrinter"]
     if len(cls) != 1:
@@ -325,6 +325,23 @@ def translate(printing_py, ty_py) -> tuple[str, dict]:
                     kinds = [a.targets[0].id for a in k.body if isinstance(a, ast.Assign)]
     if kinds != ["Nat", "Int", "Float"]:
         raise TranslatorError(f"NumericType.Kind members changed: {kinds}")
+    # the name a struct definition is registered under (printed through `ty.defn.name`):
+    # `_Guppy.struct` must pass `cls.__name__` to RawStructDef — the identifier the class is bound to
+    # in its declaring scope.  Anything else (e.g. __qualname__) breaks the tie.
+    struct_name_src = None
+    if decorator_py is not None:
+        dmod = ast.parse(open(decorator_py).read())
+        fns = [f for c in dmod.body if isinstance(c, ast.ClassDef) and c.name == "_Guppy"
+               for f in c.body if isinstance(f, ast.FunctionDef) and f.name == "struct"]
+        if len(fns) != 1:
+            raise TranslatorError("_Guppy.struct not found in decorator.py")
+        calls = [n for n in ast.walk(fns[0]) if isinstance(n, ast.Call) and ast.unparse(n.func) == "RawStructDef"]
+        if len(calls) != 1 or len(calls[0].args) < 2 or calls[0].keywords:
+            raise TranslatorError("_Guppy.struct: expected exactly one positional RawStructDef(id, name, ...) call")
+        struct_name_src = ast.unparse(calls[0].args[1])
+        if struct_name_src != "cls.__name__" or ast.unparse(calls[0].args[-1]) != "cls":
+            raise TranslatorError(f"_Guppy.struct registers the struct under `{struct_name_src}`, not `cls.__name__`: "
+                                  "printed struct names no longer are the identifier bound in the declaring scope")
     tup, app = strings["_visit_TupleType"], strings["_visit_OpaqueType_StructType"]
     tbl = {
         "tuple_sep": coq_tokens(tup[0]),
@@ -355,8 +372,9 @@ def translate(printing_py, ty_py) -> tuple[str, dict]:
         f"Definition fresh_sep : string := {coq_str(fresh_sep)}.",
         f"Definition exist_prefix : string := {coq_str(exist_prefix)}.",
         f"Definition free_bound_fresh : bool := {'true' if free_fresh else 'false'}.",
+        f"Definition struct_name_source : string := {coq_str(struct_name_src or 'unchecked')}.",
         "Definition visitors : list string := [" + "; ".join(coq_str(v) for v in sorted(vis)) + "].", "",
     ]
     info = {"variant": variant, "table": tbl, "fresh_sep": fresh_sep, "exist_prefix": exist_prefix,
-            "none_name": none_name, "free_bound_fresh": free_fresh, "visitors": sorted(vis)}
+            "none_name": none_name, "free_bound_fresh": free_fresh, "struct_name_source": struct_name_src, "visitors": sorted(vis)}
     return "\n".join(lines), info
